@@ -14,7 +14,7 @@ RULE = ("one case = one (function, dimension, point-set seed, sampling kind) wit
         "points has no integer coordinate; distinct = distinct (function, n, seed, kind)")
 ASSUMPTIONS = [
     "Richardson extrapolation (h0=0.02, 5 levels) is accurate to <1e-8 relative on these smooth functions",
-    "points closer than 0.5 to the origin (Ackley) or with |cos(x_i/sqrt(i))|<1e-2 (Griewank closed form) are excluded as singular",
+    "points closer than 0.5 to the origin (Ackley) or with |cos(x_i/sqrt(i))|<1e-6 (Griewank closed form divides by it) are excluded as singular; points with |cos| in [1e-5, 5e-2] are sampled on purpose",
 ]
 NAMES = ("ackley", "beale", "griewank", "quartic", "rastrigin", "rosenbrock", "sphere", "styblinski_tang")
 TOL = 1e-6
@@ -32,7 +32,7 @@ def cases(tier, seed):
             if name in ("rosenbrock", "beale") and n < 2:
                 continue
             for r in range(reps):
-                for kind in ("uniform", "lattice"):
+                for kind in ("uniform", "lattice") + (("near_singular",) if name == "griewank" else ()):
                     yield {"name": name, "n": n, "seed": subseed("C19", seed, name, n, r, kind) % (2**31), "kind": kind}
 
 
@@ -70,12 +70,19 @@ def run(spec):
     for _ in range(NPTS):
         if spec["kind"] == "uniform":
             x = rng.uniform(-5, 5, n)
+        elif spec["kind"] == "near_singular":
+            # one coordinate close to (not at) a zero of its cosine factor, where the closed form divides by a small number
+            x = rng.uniform(-5, 5, n)
+            i = int(rng.integers(0, n))
+            root = (np.pi / 2 + np.pi * int(rng.integers(-1, 1))) * np.sqrt(i + 1)
+            if abs(root) <= 5:
+                x[i] = root + float(rng.choice([-1.0, 1.0]) * np.exp(rng.uniform(np.log(1e-5), np.log(5e-2)))) * np.sqrt(i + 1)
         else:
             x = rng.integers(-20, 21, n) / 4.0
         if name == "ackley" and np.linalg.norm(x) < 0.5:
             out.count("points_excluded_singular")
             continue
-        if name == "griewank" and np.any(np.abs(np.cos(x / np.sqrt(np.arange(1, n + 1)))) < 1e-2):
+        if name == "griewank" and np.any(np.abs(np.cos(x / np.sqrt(np.arange(1, n + 1)))) < 1e-6):
             out.count("points_excluded_singular")
             continue
         check_point(f, g, x, out, name)
